@@ -307,7 +307,7 @@ struct Conv<'a> {
 impl<'a> Conv<'a> {
     fn ids(&self, v: &RawVal) -> Vec<Id> {
         match v {
-            RawVal::Text(s) => s.chars().map(|c| self.tags.of_char(c)).collect(),
+            RawVal::Text(s) => self.tags.of_str(s),
             RawVal::Any(a) => vec![self.tags.of_any(a)],
             RawVal::Branch(id) => vec![*id],
             RawVal::Other => vec![(0, 0)],
@@ -362,20 +362,42 @@ fn script_json(c: &Conv, s: &RawScript) -> (Value, Value) {
     }
 }
 
-fn apply(c: &Conv, sh: &mut Shadow, s: &RawScript, unit: u32, fl: &mut Flags) {
+/// width of a shadow element in the unit the script counts in: "bytes" = UTF-8 length carried by a character's first
+/// UTF-16 unit (0 for the second unit of a surrogate pair), anything else 1
+fn width(c: &Conv, id: &Id, unit: &str) -> u32 {
+    if unit == "bytes" {
+        c.tags.w8.get(id).copied().unwrap_or(1)
+    } else {
+        1
+    }
+}
+
+/// second unit of a surrogate pair
+fn low_half(c: &Conv, id: &Id) -> bool {
+    c.tags.w8.get(id) == Some(&0)
+}
+
+fn apply(c: &Conv, sh: &mut Shadow, s: &RawScript, unit: &str, fl: &mut Flags) {
     match (sh, s) {
         (Shadow::Seq(v), RawScript::Seq(ops)) => {
             let mut pos = 0usize;
             for o in ops {
                 match o {
                     RawOp::Ret(n) | RawOp::Del(n) => {
-                        if n % unit != 0 {
-                            fl.applyok = false;
+                        // the elements covered by n units: whole characters only
+                        let mut k = 0usize;
+                        let mut left = *n;
+                        while pos + k < v.len() && (left > 0 || low_half(c, &v[pos + k])) {
+                            let wd = width(c, &v[pos + k], unit);
+                            if wd > left {
+                                break;
+                            }
+                            left -= wd;
+                            k += 1;
                         }
-                        let mut k = (n / unit) as usize;
-                        if pos + k > v.len() {
+                        if left > 0 || (pos + k < v.len() && low_half(c, &v[pos + k])) {
+                            // runs past the end of the shadow, or ends inside a character
                             fl.applyok = false;
-                            k = v.len() - pos;
                         }
                         if let RawOp::Ret(_) = o {
                             pos += k;
@@ -449,7 +471,7 @@ fn read_shadow<T: ReadTxn>(txn: &T, o: &Out, tags: &obs::Tags) -> Option<(char, 
     match o {
         Out::YText(t) => {
             let s = yrs::GetString::get_string(t, txn);
-            Some(('t', Shadow::Seq(s.chars().map(|c| tags.of_char(c)).collect())))
+            Some(('t', Shadow::Seq(tags.of_str(&s))))
         }
         Out::YArray(a) => Some(('a', Shadow::Seq(a.iter(txn).map(|v| out_id(&v, tags)).collect()))),
         Out::YMap(m) => Some(('m', Shadow::Map(m.iter(txn).map(|(k, v)| (k.to_string(), out_id(&v, tags))).collect()))),
@@ -513,8 +535,9 @@ pub fn after_step(w: &mut World, _st: &Value, ev: &mut Value) {
 
 fn process(w: &World, x: &mut EvExt, ri: usize, r: u64) -> Value {
     let conv = Conv { tags: &w.tags };
-    let tunit = if w.offset == OffsetKind::Bytes { 3 } else { 1 };
-    let unit_of = |k: char| if k == 't' { tunit } else { 1 };
+    // the unit a type's scripts count in: the document's offset kind for a text, elements for anything else
+    let tunit = if w.offset == OffsetKind::Bytes { "bytes" } else { "utf16" };
+    let unit_of = |k: char| if k == 't' { tunit } else { "elem" };
     let mut fl = Flags { applyok: true, oldok: true, pathok: true, routeok: true };
     // nothing may have been delivered to observers of a replica that did not act
     for (i, ib) in x.inbox.iter().enumerate() {
@@ -689,12 +712,26 @@ pub fn step(w: &mut World, st: &Value) -> Option<Value> {
             let target = nav(w, &txn, &p.path)?;
             match (&target, p.a.as_str()) {
                 (Out::YText(t), "ins") => {
-                    let off = w.unit_offset(&txn, t, p.idx);
+                    // (`wide`: see "del")
+                    let idx = if w.wide { p.idx.min(World::text_units(&txn, t)) } else { p.idx };
+                    let off = w.unit_offset(&txn, t, idx);
                     t.insert(&mut txn, off, &p.chars);
                 }
                 (Out::YText(t), "del") => {
-                    let off = w.unit_offset(&txn, t, p.idx);
-                    let len = w.unit_offset(&txn, t, p.idx + p.n) - off;
+                    // whole characters: an index between the halves of a surrogate pair is never handed to the API.
+                    // The seeded driver plans the operations of a transaction in advance, counting units; widening a range
+                    // to whole characters removes more than planned, so in `wide` behaviours a later range is cut to what is
+                    // left (nothing left: the operation is dropped) instead of asking the library for more than there is
+                    let (mut idx, mut n) = (p.idx, p.n);
+                    if w.wide {
+                        let total = World::text_units(&txn, t);
+                        if total == 0 {
+                            continue;
+                        }
+                        idx = idx.min(total - 1);
+                        n = n.min(total - idx);
+                    }
+                    let (_, _, off, len) = w.unit_span(&txn, t, idx, n);
                     t.remove_range(&mut txn, off, len);
                 }
                 (Out::YArray(arr), "ins") => match p.kind.as_str() {
@@ -775,7 +812,7 @@ fn containers(w: &World, ri: usize) -> Vec<(Vec<String>, char, u32, Vec<String>)
     let txn = w.reps[ri].doc.transact();
     let mut out = Vec::new();
     let mut push = |path: Vec<String>, o: &Out, out: &mut Vec<(Vec<String>, char, u32, Vec<String>)>| match o {
-        Out::YText(t) => out.push((path, 't', yrs::GetString::get_string(t, &txn).chars().count() as u32, vec![])),
+        Out::YText(t) => out.push((path, 't', World::text_units(&txn, t), vec![])),
         Out::YArray(a) => out.push((path, 'a', a.len(&txn), vec![])),
         Out::YMap(m) => {
             let mut ks: Vec<String> = m.keys(&txn).map(|k| k.to_string()).collect();
